@@ -11,4 +11,11 @@ cmake -G Ninja -S "$D/src" -B "$D/build" -DCMAKE_BUILD_TYPE=RelWithDebInfo -DBUI
   -DBUILD_C_INTERFACE=ON -DBUILD_WITH_TEMPLATE_INSTANTIATION=ON -DFETCHCONTENT_SOURCE_DIR_GOOGLETEST=/usr/src/googletest \
   -DFETCHCONTENT_FULLY_DISCONNECTED=ON > "$D/cmake.log" 2>&1 || { tail -30 "$D/cmake.log"; exit 2; }
 cmake --build "$D/build" -j16 > "$D/build.log" 2>&1 || { tail -40 "$D/build.log"; exit 2; }
-ctest --test-dir "$D/build/tests" -j8 --timeout 900 --output-junit "$D/junit.xml" | tail -15
+rc=0
+for dir in $(cd "$D/build" && find . -name CTestTestfile.cmake -not -path "./_deps/*" | xargs -n1 dirname | sort); do
+  # only directories that actually register tests
+  if ctest --test-dir "$D/build/$dir" -N 2>/dev/null | grep -q "Total Tests: [1-9]"; then
+    echo "== ctest $dir"; ctest --test-dir "$D/build/$dir" -j8 --timeout 900 | tail -6 || rc=1
+  fi
+done
+exit $rc
